@@ -55,8 +55,14 @@ theorem runInv_start (D : Path → Prop) (pp : Option PageId) (root : Node) (S S
     (steps : List (Step VH)) (inhibit : Bool) :
     RunInv H ps D pp root S S' [] steps (Walker.startP root pp inhibit)
       (⟨[], flatStore H ps root, [], []⟩ : TW Node) := by
-  refine ⟨?_, rfl, Or.inl ⟨⟨by simp, rfl, rfl, rfl⟩, by simp⟩, rfl⟩
-  refine ⟨Pos.wf_new, rfl, ?_, ?_, ?_, trivial, ?_, ?_, rfl, rfl, ?_, rfl, ?_⟩
+  refine ⟨?_, rfl, rfl, Or.inl ⟨⟨by simp, rfl, rfl, rfl⟩, by simp⟩, rfl⟩
+  have hrecon : ReconInv H (Walker.startP root pp inhibit) (⟨[], flatStore H ps root, [], []⟩ : TW Node) := by
+    refine ⟨?_, ?_, ?_, ?_⟩
+    · intro o ho; cases ho
+    · intro hr; cases hr
+    · intro hr; cases hr
+    · intro hr; cases hr
+  refine ⟨Pos.wf_new, rfl, ?_, ?_, ?_, trivial, ?_, ?_, hrecon, rfl, ?_, rfl, ?_⟩
   · simp [Walker.startP, Walker.new, Walker.newInner, flatStore]
   · simp [Walker.startP, Walker.new, Walker.newInner]
   · intro sp rest e; cases e
@@ -75,17 +81,19 @@ theorem conclude_spec (hs : H.Sound) {D : Path → Prop} {root : Node} {S S' : L
         (∀ q, q ≠ [] → q.length ≤ 256 → specPage q = P → D q → Mean S' q →
           pg.nodes.getD (specIndex q) H.term = specNode H S' q) ∧
         ∃ base, BaseOf ps P base ∧ DiffNames H pg.nodes base d := by
-  obtain ⟨w1, hw1, hs1, hsame1⟩ := sim_compactUp H ps h.sim none (by intro t ht; cases ht)
+  obtain ⟨w1, hw1, hs1, hsame1⟩ := sim_compactUp H ps h.sim none (by intro t ht; cases ht) []
+    (fun hr => absurd hr (by rw [h.norec]; simp))
+  have hnr1 : w1.reconstruction = false := hsame1.2.2.2.2.trans h.norec
   rw [h.par] at hs1
   simp only [Option.map_none] at hs1
   unfold Walker.conclude
-  rw [if_neg (by rw [h.sim.norecon]; simp), hw1]
+  rw [if_neg (by rw [h.norec]; simp), hw1]
   simp only
   -- all outputs are updated pages
   have hany : w1.outputPages.any PageOut.isReconstructed = false := by
     rw [List.any_eq_false]
     intro o ho
-    obtain ⟨P, pg, d, b, st, e, _⟩ := hs1.outs o ho
+    obtain ⟨P, pg, d, b, st, e, _⟩ := outMatches_updated H hs1 hnr1 o ho
     rw [e]; simp [PageOut.isReconstructed]
   rw [if_neg (by rw [hany]; simp)]
   have hpar1 : w1.parentPage = none := hsame1.1.trans h.par
@@ -115,7 +123,7 @@ theorem conclude_spec (hs : H.Sound) {D : Path → Prop} {root : Node} {S S' : L
       rw [hs1.root]; exact htw.1
     rw [this]
   · intro o ho
-    obtain ⟨P, pg, d, b, st, e, hmem, hl, hm, hdiff⟩ := hs1.outs o ho
+    obtain ⟨P, pg, d, b, st, e, hmem, hl, hm, hdiff⟩ := outMatches_updated H hs1 hnr1 o ho
     refine ⟨P, pg, d, b, e, hl, ?_, hdiff⟩
     intro q hq hql hqp hD hmean
     rw [hm q hq hql hqp]
@@ -132,16 +140,18 @@ theorem conclude_children_spec (hs : H.Sound) {D : Path → Prop} {P0 : PageId} 
         (∀ q, q ≠ [] → q.length ≤ 256 → specPage q = P → D q → Mean S' q →
           pg.nodes.getD (specIndex q) H.term = specNode H S' q) ∧
         ∃ base, BaseOf ps P base ∧ DiffNames H pg.nodes base d := by
-  obtain ⟨w1, hw1, hs1, hsame1⟩ := sim_compactUp H ps h.sim none (by intro t ht; cases ht)
+  obtain ⟨w1, hw1, hs1, hsame1⟩ := sim_compactUp H ps h.sim none (by intro t ht; cases ht) []
+    (fun hr => absurd hr (by rw [h.norec]; simp))
+  have hnr1 : w1.reconstruction = false := hsame1.2.2.2.2.trans h.norec
   rw [h.par] at hs1
   simp only [Option.map_none] at hs1
   unfold Walker.conclude
-  rw [if_neg (by rw [h.sim.norecon]; simp), hw1]
+  rw [if_neg (by rw [h.norec]; simp), hw1]
   simp only
   have hany : w1.outputPages.any PageOut.isReconstructed = false := by
     rw [List.any_eq_false]
     intro o ho
-    obtain ⟨P, pg, d, b, st, e, _⟩ := hs1.outs o ho
+    obtain ⟨P, pg, d, b, st, e, _⟩ := outMatches_updated H hs1 hnr1 o ho
     rw [e]; simp [PageOut.isReconstructed]
   rw [if_neg (by rw [hany]; simp)]
   have hpar1 : w1.parentPage = some P0 := hsame1.1.trans h.par
@@ -168,7 +178,7 @@ theorem conclude_children_spec (hs : H.Sound) {D : Path → Prop} {P0 : PageId} 
       exact List.mem_map_of_mem (f := fun e => (e.1.path, e.2)) he
     exact htw.1 _ hmem
   · intro o ho
-    obtain ⟨P, pg, d, b, st, e, hmem, hl, hm, hdiff⟩ := hs1.outs o ho
+    obtain ⟨P, pg, d, b, st, e, hmem, hl, hm, hdiff⟩ := outMatches_updated H hs1 hnr1 o ho
     refine ⟨P, pg, d, b, e, hl, ?_, hdiff⟩
     intro q hq hql hqp hD hmean
     rw [hm q hq hql hqp]
